@@ -3,15 +3,17 @@
 # build tags) and checks that every test in BASELINE.json's stable_pass
 # passes. Usage: tools/baseline.sh [module-dir ...]  (default: all modules)
 export GOFLAGS=-mod=mod GOPROXY=off
+REPO=${REPO:-/repo}   # REPO=<scratch worktree> checks a seeded change there
+export REPO
 unset GOSUMDB GOTOOLCHAIN
 LOG=$(mktemp /root/.cache/verif-baseline.XXXXXX.json 2>/dev/null || mktemp)
 mods="$*"
 if [ -z "$mods" ]; then
   if [ -f /w/out/gomods.txt ]; then mods=$(cat /w/out/gomods.txt); else
-    mods=$(cd /repo && find . -name go.mod -not -path './examples/*' -not -path './generate/*' | xargs -n1 dirname | sort); fi
+    mods=$(cd $REPO && find . -name go.mod -not -path './examples/*' -not -path './generate/*' | xargs -n1 dirname | sort); fi
 fi
 for m in $mods; do
-  (cd /repo/$m && go test -mod=mod -json -vet=off -count=1 -timeout 25m ./... 2>/dev/null)
+  (cd $REPO/$m && go test -mod=mod -json -vet=off -count=1 -timeout 25m ./... 2>/dev/null)
 done > "$LOG"
 python3 - "$LOG" "$mods" <<'PY'
 import json,sys
@@ -39,7 +41,7 @@ for attempt in range(3):
         pkg,name=t.split('::'); bypkg[pkg].append(name)
     for pkg,names in bypkg.items():
         top=sorted({n.split('/')[0] for n in names})
-        d='/repo/'+pkg.replace('github.com/twmb/franz-go','').lstrip('/')
+        d=os.environ.get('REPO','/repo')+'/'+pkg.replace('github.com/twmb/franz-go','').lstrip('/')
         out=subprocess.run(['go','test','-mod=mod','-json','-vet=off','-count=1','-timeout','25m','-run','^('+'|'.join(top)+')$','.'],cwd=d,capture_output=True,text=True).stdout
         for l in out.splitlines():
             try: e=json.loads(l)
